@@ -21,6 +21,7 @@ structure St where
   full : Store := []
   cur : Store := []
   removed : List Bytes := []
+  hit : List Bytes := []                       -- c17: keys the querying trie found absent so far (GetMissingNodeKeys)
   snapped : Bool := false                       -- c17: `snap` seen; before it `get` reads the trie itself (c14)
   touched : Option Nat := none                 -- c14: version written to every stored node by the last `touch`
   hist : List (Nat × List Nib × Bytes) := []     -- c01cache: the ins / del history, newest first (del = empty value)
@@ -259,30 +260,52 @@ def step (s : St) (w : List String) : St × String :=
   | ["snap"] =>
     let e := entries sha3 s.t []
     let full : Store := e.2.map (fun x => (x.1, encode x.2))
-    ({ s with root := e.1, order := e.2, sizes := sizesOf s.t, full := full, cur := full, removed := [], snapped := true },
+    ({ s with root := e.1, order := e.2, sizes := sizesOf s.t, full := full, cur := full, removed := [], snapped := true, hit := [] },
       "ok " ++ keyStr e.1 ++ " " ++ toString e.2.length)
   | ["rm", l] =>
     let idxs := (l.splitOn ",").filterMap (fun x => indexOf s x.toNat!)
     let ks := keysAt s idxs
-    ({ s with cur := without s.full ks, removed := ks }, "ok " ++ fmtKeys ks)
+    ({ s with cur := without s.full ks, removed := ks, hit := [] }, "ok " ++ fmtKeys ks)
   | ["rmsub", i] =>
     let idxs := match indexOf s i.toNat! with
       | some j => subtreeIdx s j
       | none => []
     let ks := keysAt s idxs
-    ({ s with cur := without s.full ks, removed := ks }, "ok " ++ fmtKeys ks)
-  | ["has"] => (s, boolStr (hasMissing (ptOf s s.cur)))
-  | ["miss"] => (s, missStr (ptOf s s.cur))
+    ({ s with cur := without s.full ks, removed := ks, hit := [] }, "ok " ++ fmtKeys ks)
+  | ["has"] => let pt := ptOf s s.cur; ({ s with hit := allMissing pt ++ s.hit }, boolStr (hasMissing pt))
+  | ["miss"] =>
+    let pt := ptOf s s.cur
+    -- GetAllMissingNodes reads the root key even when it is nil (empty trie): the nil key is recorded as missing
+    ({ s with hit := (if s.root.isEmpty then [[]] else allMissing pt) ++ s.hit }, missStr pt)
+  | ["mkeys"] => (s, "ok " ++ fmtKeys s.hit)
+  | ["restore", _] =>
+    ({ s with cur := mergeDB 0 s.cur (donorOf s s.removed), removed := [] }, "ok")
+  | ["cwalk"] =>
+    let pt := ptOf s s.cur
+    let cls := fun (o : Option IterErr) (okStr : String) => match o with
+      | none => "ctx"
+      | some .none => okStr
+      | some .nodeNotFound => "nodenotfound"
+      | some .missingNodes => "missingnodes"
+      | some .iterChild => "iterchild"
+    let recs := (List.range (reads pt + 1)).map (fun j =>
+      let n := j + 1
+      let h := match iterErrCancelled .missingNodes n pt with
+        | none => "ctx"
+        | some e => boolStr (e != .none)
+      toString n ++ ":" ++ h ++ "/" ++ cls (iterErrCancelled .nodeNotFound n pt) "ok")
+    (s, "ok " ++ ";".intercalate recs)
   | ["get", p] =>
     match parsePath p with
     | some p =>
-      ({ s with used := pathBytes p :: s.used },
+      ({ s with used := pathBytes p :: s.used,
+                hit := if s.snapped then (lookupMiss (ptOf s s.cur) (pathBytes p)).toList ++ s.hit else s.hit },
         if s.snapped then lresStr (lookupP (ptOf s s.cur) (pathBytes p))
         else match lookup s.t p with | some b => "ok " ++ hex b | none => "notpresent")
     | none => (s, "bad-op")
   | ["iter"] =>
     let pt := ptOf s s.cur
-    (s, match iterErr .nodeNotFound pt with
+    ({ s with hit := allMissing pt ++ s.hit }, match iterErr .nodeNotFound pt with
         | .none => "ok " ++ fmtPairs (valuesP pt [])
         | .nodeNotFound => "nodenotfound"
         | .missingNodes => "missingnodes"
@@ -290,7 +313,7 @@ def step (s : St) (w : List String) : St × String :=
   | ["repair", v] =>
     let cur' := mergeDB v.toNat! s.cur (donorOf s s.removed)
     let pt := ptOf s cur'
-    ({ s with cur := cur', removed := [] },
+    ({ s with cur := cur', removed := [], hit := [] },
       "ok " ++ keyStr s.root ++ " has=" ++ boolStr (hasMissing pt) ++ " miss="
         ++ (match getAllMissing pt with | none => "nodenotfound" | some ks => fmtKeys ks) ++ " donor=same")
   | ["sweep1"] =>
